@@ -228,8 +228,7 @@ theorem insertNew_items (s : State) (c : Var) (pos : Nat) (srcs : List (Nat × O
       refine ⟨by simp only [allocBlock, setNode_get], ?_⟩
       simp only [allocBlock, setNode_get]
       intro he
-      have := (newSlots_mem c.k st1.next ⟨st1.next, 0⟩).mpr ⟨rfl, Nat.zero_lt_succ 3⟩
-      rw [he] at this; cases this
+      exact newSlots_ne_nil _ _ _ (st1.per.pos c.k) he
     · rw [if_neg hc]
       exact ⟨rfl, fun he => by rw [he] at hc; exact hc rfl⟩
   have heq : insertNew s c pos srcs =
@@ -1279,7 +1278,7 @@ theorem no_fault_st (op : Op) : stepRes st op ≠ .fault := by
 end ops
 
 /-- the model never faults in a reachable state: every compiled micro list executes completely -/
-theorem no_fault (ops : List Op) (op : Op) : stepRes (run init ops) op ≠ Res.fault :=
-  no_fault_st (reach_ok ops).1 (allAlive_reach ops) op
+theorem no_fault (p : Per) (ops : List Op) (op : Op) : stepRes (run (init p) ops) op ≠ Res.fault :=
+  no_fault_st (reach_ok p ops).1 (allAlive_reach p ops) op
 
 end Nstd.Life.Ops
